@@ -255,6 +255,20 @@ def check_bytes(ctx, sel, data, measure_memory=True):
     elif r["status"] == "memory":
         ctx.flag("C12.proportional-memory", "C12.memory-budget/%s" % r["decoder"],
                  "decoder %s peaked at %d bytes on a %d-byte input" % (r["decoder"], r["peak"], len(data)))
+    elif len(data) >= 64:
+        # ... and the bytes it copies while slicing its input are proportional to it as well (executed lines do not see a slice's length)
+        n, dec, out = decwork.copied(sel, data)
+        want = "value" if r["status"] == "value" else r["exc"]
+        if out != want:
+            ctx.extra["copy_measure_outcome_differs"] = ctx.extra.get("copy_measure_outcome_differs", 0) + 1  # a bytes subclass changed the outcome: no verdict from this measure
+        elif n > decwork.E_COPY + decwork.F_COPY * (len(data) + dec):
+            ctx.flag("C12.proportional-time", "C12.copy-budget/%s" % r["decoder"],
+                     "decoder %s copied %d bytes while slicing a %d-byte input (+%d decompressed): budget %d+%d*(len+decompressed)" % (r["decoder"], n, len(data), dec, decwork.E_COPY, decwork.F_COPY))
+        elif len(data) + dec >= 1024:
+            mx = ctx.extra.setdefault("max_copied_per_input_byte", 0.0)
+            ratio = round(n / float(len(data) + dec), 2)
+            if ratio > mx:
+                ctx.extra["max_copied_per_input_byte"] = ratio
     return r
 
 
